@@ -117,6 +117,13 @@ CLAIMED = {
         "Trusted: the ledger (harness/models/ledger.rs) fed with the UpdateInfo returned by every transaction and the application's event-cleared callbacks, the recording stubs, the simulated network. Update values are ones every variation carries exactly (conversion is C10's subject, not applicable here). The quiet tail (90 s) exceeds reconnect back-off + start-up sequence + unsolicited retry + two poll periods for every generated configuration. In the unsolicited-only scenario a point whose newest event was discarded by overflow is exempt from the final equality.",
         "DESIGN.md section 6 C02",
     ),
+    "C01": (
+        "S-OUT",
+        "deterministic simulation: seeded search over hostile byte streams (well-formed, mutated, extreme-field, arbitrary application octets in valid framing, link-level garbage and frames cut short), the protocol state in which they arrive (idle, solicited / unsolicited confirm wait, mid series, selection held, task outstanding), chunkings, decode levels, buffer sizes, link error modes and reconnects, against the real outstation (engine S-OUT) and the real master (engine S-MAST); oracle = no panic / spin / hang in any poll of the endpoint task plus a keeps-serving probe at the end of every run",
+        "Seeded exploration (not exhaustive). The endpoint tasks run under the simulation kernel with overflow checks and debug assertions on; a panic in any poll (caught per task, location reported), more than 20000 polls without virtual time or input advancing (spin) and a run that does not finish (watchdog) are violations. Outstation scenario: a hostile master drives the real outstation into idle / confirm waits / multi-fragment series / selection and injects requests of every function code, mutations (bit flips, truncation, extension, fields forced to 0/1/255/65535, ranges ending at 65535, maximal counts, free-format and octet-string headers), arbitrary octets up to the receive buffer, and link-level garbage; with decode level everything a formatting subscriber is installed so every Display path runs. Master scenario: hostile outstations answer reads, commands, time syncs, restarts, file transfers, start-up tasks and polls, and talk while the master is idle, with the same classes of input as responses and unsolicited responses. Probe: after the input stops and all timeouts have lapsed (Close mode after link-level garbage: on the next session; otherwise on the same one, with padding frames pushing a cut-short frame out of the parser) the outstation must answer a link status request and a DELAY_MEASURE, and the master must complete a faithfully answered user read.",
+        "Trusted: the kernel's panic capture and spin budget, reference codec for building the probe, the recording stubs. The probe verdict is only given when the script still ends with the generator's epilogue (the minimiser may not remove the pause, padding or reconnect that make the probe meaningful). Configurations cover rx 249..2048, tx 249..2048, event buffers 3/20, both link error modes, decode none/all; other decode-level combinations are not sampled individually.",
+        "DESIGN.md section 6 C01",
+    ),
     "C04": (
         "S-OUT",
         "deterministic simulation: seeded search over request histories, virtual-time advances around the select timeout, retransmissions, reconnects/pre-emption and handler answers against the real outstation task; oracle = the property's predicate evaluated on the harness' own record of the history",
@@ -170,8 +177,8 @@ def main():
         },
         "engines": [
             {"name": "S-LINK", "path": "harness/props/c06.rs", "serves_properties": ["C06", "C07"], "kind_free_text": "real link reader/parser/formatter (C06) and real link Layer (C07 link scenario) over a simulated physical layer; seeded streams, faults and read plans"},
-            {"name": "S-OUT", "path": "harness/sout.rs", "serves_properties": ["C03", "C04", "C05", "C07", "C11", "C12", "C13", "C14"], "kind_free_text": "real OutstationTask (session, database, event buffer, real transport/link) run by the real ServerTask over simulated connections; scripted master peer using the reference codec; recording stubs for user callbacks; user transactions injected at database lock points (H4)"},
-            {"name": "S-MAST", "path": "harness/smast.rs", "serves_properties": ["C15", "C16", "C17", "C19"], "kind_free_text": "real MasterTask run by the real tcp ClientTask over a simulated network (H3) with latency and chunking; scripted outstation(s) built on the reference codec with a queue of reply policies; recording stubs for ReadHandler/AssociationHandler/AssociationInformation/Listener; user requests issued by simulated tasks through the public async API"},
+            {"name": "S-OUT", "path": "harness/sout.rs", "serves_properties": ["C01", "C03", "C04", "C05", "C07", "C11", "C12", "C13", "C14"], "kind_free_text": "real OutstationTask (session, database, event buffer, real transport/link) run by the real ServerTask over simulated connections; scripted master peer using the reference codec; recording stubs for user callbacks; user transactions injected at database lock points (H4)"},
+            {"name": "S-MAST", "path": "harness/smast.rs", "serves_properties": ["C01", "C15", "C16", "C17", "C18", "C19"], "kind_free_text": "real MasterTask run by the real tcp ClientTask over a simulated network (H3) with latency and chunking; scripted outstation(s) built on the reference codec with a queue of reply policies; recording stubs for ReadHandler/AssociationHandler/AssociationInformation/Listener; user requests issued by simulated tasks through the public async API"},
             {"name": "S-PAIR", "path": "harness/spair.rs", "serves_properties": ["C02", "C18"], "kind_free_text": "real MasterTask + tcp ClientTask and real OutstationTask + tcp ServerTask connected through the simulated network (H3): per-direction latency, read chunking on both sockets, one-shot holds, stalls and cuts; recording stubs for every user callback on both sides; database transactions and user requests issued by simulated tasks"},
             {"name": "S-TRANS", "path": "harness/props/c08.rs", "serves_properties": ["C08"], "kind_free_text": "two real transport writers -> frame-level fault stage -> real transport reader (link layer + assembler) over simulated phys"},
         ],
